@@ -19,6 +19,8 @@ RULE = ("cases = generated plotfiles x (every C04 single site + every site of th
         "accepted mutant that differs from the original in a byte the reader consumes")
 ASSUMPTIONS = ["FAB located by scanning the named file for the box descriptor text; not unique "
                "=> inconclusive", "pool shim M1 in-process"]
+# the share of cases also run under python -O (1 = all): the anchor code validates with assert statements
+OPT_SUBSET = {"quick": 1, "thorough": 2}
 REQUIRED_OBS = {"accepted_and_read": 300, "rejected": 500, "set:tolerant_ops_accepted": 4}
 CHAIN = {"quick": 2, "thorough": 10}
 TIMEOUT = {"quick": 400, "thorough": 2400}
